@@ -105,3 +105,26 @@ impl ConnectBox {
 }
 #[verifier::external_body]
 pub struct PgConfigOpaque { _p: () }
+
+// ---- the heap of live statement caches, addressed by the identity a `Weak<StatementCache>` carries -----------------------
+// `Weak::upgrade()` succeeds exactly for the caches that are still alive; the upgraded `Arc` is the cache itself. The
+// extractor turns `if let Some(c) = w.upgrade() { B }` into take_/put_ around B (rule `heapupgrade`).
+pub struct CacheHeap { pub live: Ghost<Map<int, StatementCache>> }
+impl CacheHeap {
+    pub open spec fn wf(&self) -> bool {
+        forall|id: int| #[trigger] self.live@.dom().contains(id) ==> self.live@[id].cid@ == id && !self.live@[id].map.held@
+    }
+    #[verifier::external_body]
+    pub fn alive_(&self, w: &WeakRef) -> (r: bool)
+        ensures r == self.live@.dom().contains(w.id@)
+    { unimplemented!() }
+    #[verifier::external_body]
+    pub fn take_(&mut self, w: &WeakRef) -> (c: StatementCache)
+        requires old(self).live@.dom().contains(w.id@)
+        ensures c == old(self).live@[w.id@], final(self).live@ == old(self).live@.remove(w.id@)
+    { unimplemented!() }
+    #[verifier::external_body]
+    pub fn put_(&mut self, c: StatementCache)
+        ensures final(self).live@ == old(self).live@.insert(c.cid@, c)
+    { unimplemented!() }
+}
